@@ -78,14 +78,14 @@ w("%d seeded changes; %d are detected by the committed checks on today's tree, %
   "seeds that no longer apply because a `fix:` commit rewrote the code they change are marked *superseded* with the mutant that replaces them.\n" % (n, caught, missed_first))
 
 w("### 6.4 Self-validation mutants\n")
-w("| Property | Mutants expected to fire | Benign variants expected silent |")
+w("| Property | Mutants expected to fire | Benign variants (expected silent, or — for renames of anchored names — an explicit refusal, never a violation) |")
 w("|---|---|---|")
 tm = tb = 0
 for p in props:
     pid = p["id"]
     ms = glob.glob("%s/mutants/%s/*.diff" % (V, pid))
-    fire = [m for m in ms if "expect: silent" not in open(m).readline()]
-    ben = [m for m in ms if "expect: silent" in open(m).readline()]
+    fire = [m for m in ms if not re.search(r"expect: (silent|refuse)", open(m).readline())]
+    ben = [m for m in ms if re.search(r"expect: (silent|refuse)", open(m).readline())]
     tm += len(fire)
     tb += len(ben)
     w("| %s | %d | %d |" % (pid, len(fire), len(ben)))
